@@ -25,8 +25,11 @@ func init() {
 			"(noninterf) in every function that threads the flag, the flag is used only as a branch condition or passed on in flag position, and for every branch on it the flag=true and flag=false continuations contain, up to their immediate post-dominator or return, only instructions that cannot influence the non-AST results " +
 			"(no parse call, no store outside fresh AST objects, no value feeding err/remTokens/branch conditions), and they deliver identical err/remTokens values where they meet or return; " +
 			"(optable) for each binary label operator the text emitted by collectFragments is the text the tokenizer maps to the token kind under which the parser constructs that same node type; " +
+			"(verbatim) every string the formatter family (the Node method of type func([]string) []string and the helpers it calls) puts into the fragment slice is a constant or a string read from the AST (uniquestr.Handle.Value() / a field), possibly concatenated, " +
+			"never the result of a call or operation applied to such a string — the tokenizer takes the bytes between quotes verbatim, so any escaping/trimming/case-folding of a label name or value changes what the canonical text parses back to — " +
+			"and the field returned by Selector.String() is only ever assigned strings.Join(<collected fragments>, \"\"); " +
 			"(nodes) every Node implementation is constructed by the parser, and every one with a LabelName field has its LabelName rewritten in a case of PrefixVisitor.Visit.",
-		NotDecided: "Full round-trip equality (quoting of values, nesting/parenthesisation, set literal ordering and hash identity) and Evaluate equivalence after re-parsing; panics (index out of range) inside AST construction; the tokenizer's acceptance itself (shared by both modes).",
+		NotDecided: "Full round-trip equality (choice of the quote character for a value, nesting/parenthesisation, set literal ordering and hash identity) and Evaluate equivalence after re-parsing; panics (index out of range) inside AST construction; the tokenizer's acceptance itself (shared by both modes).",
 		Assumptions: []string{
 			"go/types + go/ssa (x/tools v0.50.0) model of the current source, CGO_ENABLED=0 build",
 			"uniquestr.Make, logrus calls, builtins and methods invoked only on freshly built AST values (Node/*Selector) neither fail nor touch parser-visible state",
@@ -54,6 +57,14 @@ func init() {
 				Old: "tokens = append(tokens, Token{Kind: TokContains})", New: "tokens = append(tokens, Token{Kind: TokStartsWith})", Expect: "C06.optable/LabelContainsValueNode"},
 			{Name: "parser never builds GlobalNode", File: "libcalico-go/lib/selector/parser/parser.go",
 				Old: "\t\t\tsel = &GlobalNode{}\n", New: "\t\t\tsel = &AllNode{}\n", Expect: "C06.nodes/built/GlobalNode"},
+			{Name: "formatter escapes backslashes in a value although the grammar has no escapes", File: "libcalico-go/lib/selector/parser/ast.go",
+				Old: "\treturn append(fragments, label, op, quote, s, quote)\n", New: "\treturn append(fragments, label, op, quote, strings.ReplaceAll(s, \"\\\\\", \"\\\\\\\\\"), quote)\n", Expect: "C06.verbatim/appendLabelOpAndQuotedString"},
+			{Name: "set members are trimmed when formatted", File: "libcalico-go/lib/selector/parser/ast.go",
+				Old: "\t\tfragments = append(fragments, quote, s, quote)\n", New: "\t\tfragments = append(fragments, quote, strings.TrimSpace(s), quote)\n", Expect: "C06.verbatim/collectInOpFragments"},
+			{Name: "label name lower-cased in has()", File: "libcalico-go/lib/selector/parser/ast.go",
+				Old: "\treturn append(fragments, \"has(\", node.LabelName.Value(), \")\")\n", New: "\treturn append(fragments, \"has(\", strings.ToLower(node.LabelName.Value()), \")\")\n", Expect: "C06.verbatim/HasNode.collectFragments"},
+			{Name: "fragments joined with a separator", File: "libcalico-go/lib/selector/parser/ast.go",
+				Old: "\tstr := strings.Join(fragments, \"\")\n", New: "\tstr := strings.Join(fragments, \" \")\n", Expect: "C06.verbatim/join/"},
 			{Name: "PrefixVisitor forgets LabelInSetNode", File: "libcalico-go/lib/selector/parser/ast.go",
 				Old: "\tcase *LabelInSetNode:\n\t\tnp.LabelName = uniquestr.Make(fmt.Sprintf(\"%s%s\", v.Prefix, np.LabelName.Value()))\n", New: "", Expect: "C06.nodes/visit/LabelInSetNode"},
 		},
@@ -66,9 +77,12 @@ func runC06(c *Ctx) {
 	c.Rule("C06.optable", "E-TABLE", "operator text emitted by collectFragments ↔ tokenizer token kind ↔ parser case constructing the same node type", 7)
 	c.Rule("C06.nodes", "E-FIELDS", "every Node implementation is constructed by the parser; those with a LabelName field are rewritten by PrefixVisitor.Visit", 21)
 
+	c.Rule("C06.verbatim", "E-FLOW (value provenance)", "every fragment the canonical formatter emits is a string constant or a string held in the AST, unmodified (the grammar has no escapes); the canonical text is the plain concatenation of the fragments", 9)
+
 	fam := c06NonInterf(c, p)
 	c06OpTable(c, p, fam)
 	c06Nodes(c, p, fam)
+	c06Verbatim(c, p)
 }
 
 func c06NodeTypes(c *Ctx, p *Prog) (nodeI *types.Interface, nodeT types.Type, impls []*types.Named) {
@@ -580,5 +594,400 @@ func c06Nodes(c *Ctx, p *Prog, fam map[*ssa.Function]*c06Fn) {
 			c.Check(rewritten[name], "C06.nodes/visit/"+name, site, "LabelName rewritten by PrefixVisitor.Visit",
 				name+" has a LabelName but PrefixVisitor.Visit has no case rewriting it: prefixed selectors silently keep the unprefixed label")
 		}
+	}
+}
+
+// --------------------------------------------------------------- verbatim --
+
+type c06Cls struct {
+	node     bool // derived from a string held in the AST
+	bad, und []string
+}
+
+func (a *c06Cls) merge(b c06Cls) {
+	a.node = a.node || b.node
+	a.bad = append(a.bad, b.bad...)
+	a.und = append(a.und, b.und...)
+}
+
+// c06Verbatim: the selector grammar has no escape sequences — the tokenizer
+// takes the bytes between a pair of quotes (and the bytes of a label name) as
+// they are.  So the canonical text parses back to the same selector only if the
+// formatter writes every label name and value exactly as it is stored.  The rule
+// follows every string stored into the fragment slices back to its leaves.
+func c06Verbatim(c *Ctx, p *Prog) {
+	nodeI, _, impls := c06NodeTypes(c, p)
+	sp := p.SSAPkg(c06ParserPkg)
+	pk := p.Pkg(c06ParserPkg)
+	if sp == nil || pk == nil {
+		c.Lost("package %s", c06ParserPkg)
+	}
+	isStr := func(t types.Type) bool {
+		b, ok := t.Underlying().(*types.Basic)
+		return ok && b.Info()&types.IsString != 0
+	}
+	isStrSlice := func(t types.Type) bool {
+		sl, ok := t.Underlying().(*types.Slice)
+		return ok && isStr(sl.Elem())
+	}
+	// the fragment collector of Node: the method of type func([]string) []string
+	var collect *types.Func
+	for i := 0; i < nodeI.NumMethods(); i++ {
+		m := nodeI.Method(i)
+		sig := m.Type().(*types.Signature)
+		if sig.Params().Len() == 1 && sig.Results().Len() == 1 && isStrSlice(sig.Params().At(0).Type()) && isStrSlice(sig.Results().At(0).Type()) {
+			if collect != nil {
+				c.Lost("parser.Node has two methods of type func([]string) []string")
+			}
+			collect = m
+		}
+	}
+	if collect == nil {
+		c.Lost("parser.Node has no method of type func([]string) []string (the fragment collector)")
+	}
+	returnsFragments := func(f *ssa.Function) bool {
+		res := f.Signature.Results()
+		for i := 0; i < res.Len(); i++ {
+			if isStrSlice(res.At(i).Type()) {
+				return true
+			}
+		}
+		return false
+	}
+	// family: the collector implementations and the package functions they call that return fragments
+	fam := map[*ssa.Function]bool{}
+	var order []*ssa.Function
+	var add func(f *ssa.Function)
+	add = func(f *ssa.Function) {
+		if f == nil || f.Blocks == nil || fam[f] {
+			return
+		}
+		fam[f] = true
+		order = append(order, f)
+		allInstrs(f, true, func(_ *ssa.Function, in ssa.Instruction) {
+			if ci, ok := in.(ssa.CallInstruction); ok {
+				if sf := calleeFn(ci.Common()); sf != nil && sf.Pkg == sp && returnsFragments(sf) {
+					add(sf)
+				}
+			}
+		})
+	}
+	for _, named := range impls {
+		obj, _, _ := types.LookupFieldOrMethod(types.NewPointer(named), true, pk.Types, collect.Name())
+		mf, _ := obj.(*types.Func)
+		if mf == nil {
+			c.Lost("%s.%s", named.Obj().Name(), collect.Name())
+		}
+		fn := p.SSA.FuncValue(mf)
+		if fn == nil || fn.Blocks == nil {
+			c.Lost("%s.%s body", named.Obj().Name(), collect.Name())
+		}
+		add(fn)
+	}
+	// static call sites inside the package
+	var pkgFns []*ssa.Function
+	sites := map[*ssa.Function][]*ssa.CallCommon{}
+	for _, f := range p.AllFuncs() {
+		top := topFn(f)
+		if top.Pkg != sp {
+			continue
+		}
+		pkgFns = append(pkgFns, f)
+		allInstrs(f, false, func(_ *ssa.Function, in ssa.Instruction) {
+			if ci, ok := in.(ssa.CallInstruction); ok {
+				if sf := calleeFn(ci.Common()); sf != nil && sf.Pkg == sp {
+					sites[sf] = append(sites[sf], ci.Common())
+				}
+			}
+		})
+	}
+	calleeText := func(cc *ssa.CallCommon) string {
+		if fo := calleeOf(cc); fo != nil {
+			if fo.Pkg() != nil {
+				return fo.Pkg().Name() + "." + fo.Name()
+			}
+			return fo.Name()
+		}
+		return "a function value"
+	}
+	var cls func(v ssa.Value, seen map[ssa.Value]bool) c06Cls
+	viaCall := func(v ssa.Value, call *ssa.Call, seen map[ssa.Value]bool) c06Cls {
+		cc := call.Common()
+		fo := calleeOf(cc)
+		if fo != nil && fo.Name() == "Value" && c06PkgIs(fo, "lib/std/uniquestr") && len(cc.Args) == 1 {
+			return c06Cls{node: true} // the string of an interned handle, as stored
+		}
+		if sf := calleeFn(cc); sf != nil && sf.Pkg == sp && sf.Blocks != nil && !cc.IsInvoke() {
+			idx := 0
+			if ex, ok := v.(*ssa.Extract); ok {
+				idx = ex.Index
+			}
+			var out c06Cls
+			for _, r := range returnsOf(sf) {
+				if idx < len(r.Results) {
+					out.merge(cls(r.Results[idx], seen))
+				}
+			}
+			return out
+		}
+		var args c06Cls
+		for _, a := range cc.Args {
+			if isStr(a.Type()) {
+				args.merge(cls(a, seen))
+			}
+		}
+		if cc.IsInvoke() && isStr(cc.Value.Type()) {
+			args.merge(cls(cc.Value, seen))
+		}
+		out := c06Cls{node: args.node, bad: args.bad, und: args.und}
+		if args.node {
+			out.bad = append(out.bad, fmt.Sprintf("a string of the AST is passed through %s at %s before it is emitted", calleeText(cc), p.Pos(call.Pos())))
+		} else {
+			out.und = append(out.und, fmt.Sprintf("a fragment is produced by %s at %s", calleeText(cc), p.Pos(call.Pos())))
+		}
+		return out
+	}
+	nodeDerived := map[ssa.Value]bool{}
+	var cls1 func(v ssa.Value, seen map[ssa.Value]bool) c06Cls
+	cls = func(v ssa.Value, seen map[ssa.Value]bool) c06Cls {
+		if seen[v] {
+			// already reported in this traversal; only its provenance matters here
+			return c06Cls{node: nodeDerived[v]}
+		}
+		seen[v] = true
+		out := cls1(v, seen)
+		if out.node {
+			nodeDerived[v] = true
+		}
+		return out
+	}
+	cls1 = func(v ssa.Value, seen map[ssa.Value]bool) c06Cls {
+		switch x := v.(type) {
+		case *ssa.Const:
+			return c06Cls{}
+		case *ssa.Phi:
+			var out c06Cls
+			for _, e := range x.Edges {
+				out.merge(cls(e, seen))
+			}
+			return out
+		case *ssa.BinOp:
+			if x.Op == token.ADD && isStr(x.Type()) {
+				out := cls(x.X, seen)
+				out.merge(cls(x.Y, seen))
+				return out
+			}
+		case *ssa.Parameter:
+			f := x.Parent()
+			idx := -1
+			for i, pa := range f.Params {
+				if pa == x {
+					idx = i
+				}
+			}
+			ss := sites[f]
+			if idx < 0 || len(ss) == 0 {
+				return c06Cls{und: []string{fmt.Sprintf("parameter %s of %s has no static call site in the package", x.Name(), fnName(f))}}
+			}
+			var out c06Cls
+			for _, cc := range ss {
+				if idx < len(cc.Args) {
+					out.merge(cls(cc.Args[idx], seen))
+				}
+			}
+			return out
+		case *ssa.UnOp:
+			if x.Op == token.MUL {
+				if al, ok := x.X.(*ssa.Alloc); ok {
+					var out c06Cls
+					if refs := al.Referrers(); refs != nil {
+						for _, r := range *refs {
+							switch y := r.(type) {
+							case *ssa.Store:
+								if y.Addr == ssa.Value(al) {
+									out.merge(cls(y.Val, seen))
+								}
+							case *ssa.UnOp, *ssa.DebugRef:
+							default:
+								out.und = append(out.und, fmt.Sprintf("the address of local %s escapes at %s", al.Comment, p.Pos(r.Pos())))
+							}
+						}
+					}
+					return out
+				}
+				if _, ok := x.X.(*ssa.FreeVar); ok {
+					return c06Cls{und: []string{"a captured variable is emitted at " + p.Pos(x.Pos())}}
+				}
+				return c06Cls{node: true} // a string read from memory (a field / element of the AST), as stored
+			}
+		case *ssa.Field:
+			return c06Cls{node: true}
+		case *ssa.Call:
+			return viaCall(v, x, seen)
+		case *ssa.Extract:
+			if call, ok := x.Tuple.(*ssa.Call); ok {
+				return viaCall(v, call, seen)
+			}
+		}
+		// any other operation (substring, conversion, lookup …)
+		var ops c06Cls
+		if in, ok := v.(ssa.Instruction); ok {
+			for _, o := range in.Operands(nil) {
+				if *o != nil && isStr((*o).Type()) {
+					ops.merge(cls(*o, seen))
+				}
+			}
+		}
+		if ops.node {
+			ops.bad = append(ops.bad, fmt.Sprintf("a string of the AST is transformed by `%s` at %s before it is emitted", v.String(), p.Pos(v.Pos())))
+		} else {
+			ops.und = append(ops.und, fmt.Sprintf("a fragment is computed by `%s` at %s", v.String(), p.Pos(v.Pos())))
+		}
+		return ops
+	}
+
+	// sinks: every string stored into an element of a string array/slice inside the family
+	// (the varargs of append, or a direct element store), and every spread append
+	sort.Slice(order, func(i, j int) bool { return fnName(order[i]) < fnName(order[j]) })
+	for _, f := range order {
+		var res c06Cls
+		nSinks := 0
+		allInstrs(f, true, func(_ *ssa.Function, in ssa.Instruction) {
+			if st, ok := in.(*ssa.Store); ok {
+				if ia, ok := st.Addr.(*ssa.IndexAddr); ok && isStr(st.Val.Type()) {
+					_ = ia
+					nSinks++
+					res.merge(cls(st.Val, map[ssa.Value]bool{}))
+				}
+				return
+			}
+			if cc, ok := isBuiltinCall(in, "append"); ok && len(cc.Args) == 2 && isStrSlice(cc.Args[0].Type()) {
+				// the appended elements must be a literal varargs array (checked above through its stores) or fragments
+				for _, a := range cc.Args {
+					for _, o := range origins(a, func(x ssa.Value) []ssa.Value {
+						if sl, ok := x.(*ssa.Slice); ok {
+							return []ssa.Value{sl.X}
+						}
+						if ci, ok := x.(*ssa.Call); ok {
+							if ac, isApp := isBuiltinCall(ci, "append"); isApp {
+								return ac.Args
+							}
+						}
+						return nil
+					}) {
+						switch y := o.V.(type) {
+						case *ssa.Alloc, *ssa.Parameter, *ssa.Const:
+						case *ssa.Call:
+							yc := y.Common()
+							ok := yc.IsInvoke() && yc.Method.Name() == collect.Name()
+							if sf := calleeFn(yc); sf != nil && fam[sf] {
+								ok = true
+							}
+							if !ok {
+								res.und = append(res.und, fmt.Sprintf("fragments produced by %s at %s are appended", calleeText(yc), p.Pos(y.Pos())))
+							}
+						default:
+							res.und = append(res.und, fmt.Sprintf("fragments of unknown origin (%s) are appended at %s", o.Kind, p.Pos(in.Pos())))
+						}
+					}
+				}
+			}
+		})
+		if nSinks == 0 {
+			continue // only forwards to a helper; its arguments are followed from the helper's parameters
+		}
+		key := "C06.verbatim/" + fnName(f)
+		site := p.Pos(f.Pos())
+		switch {
+		case len(res.bad) > 0:
+			sort.Strings(res.bad)
+			c.Violate(key, site, "%s: %s — the selector grammar has no escape sequences and the tokenizer takes label names and quoted values byte for byte, so the canonical text no longer parses back to the same selector (different matches, text and id) for inputs the operation changes",
+				fnName(f), strings.Join(c25Uniq(res.bad), "; "))
+		case len(res.und) > 0:
+			c.Undecided(key, site, "%s", strings.Join(c25Uniq(res.und), "; "))
+		default:
+			c.Ok(key, site, "%d emitted string(s): constants and strings of the AST as stored (possibly concatenated)", nSinks)
+		}
+	}
+
+	// the canonical text is the plain concatenation of the collected fragments
+	strFn := p.Func(c06ParserPkg, "Selector.String")
+	if strFn == nil {
+		c.Lost("Selector.String")
+	}
+	var textField *types.Var
+	for _, r := range returnsOf(strFn) {
+		if len(r.Results) == 1 {
+			for _, o := range origins(r.Results[0], nil) {
+				if fv := fieldVar(o.V); fv != nil {
+					if textField != nil && textField != fv {
+						c.Lost("Selector.String returns more than one field")
+					}
+					textField = fv
+				}
+			}
+		}
+	}
+	if textField == nil {
+		c.Lost("the field returned by Selector.String()")
+	}
+	isCollected := func(v ssa.Value) bool {
+		os := origins(v, nil)
+		if len(os) == 0 {
+			return false
+		}
+		for _, o := range os {
+			call, ok := o.V.(*ssa.Call)
+			if !ok {
+				return false
+			}
+			cc := call.Common()
+			if cc.IsInvoke() && cc.Method.Name() == collect.Name() {
+				continue
+			}
+			if sf := calleeFn(cc); sf != nil && fam[sf] {
+				continue
+			}
+			return false
+		}
+		return true
+	}
+	nStores := 0
+	for _, f := range pkgFns {
+		allInstrs(f, false, func(_ *ssa.Function, in ssa.Instruction) {
+			st, ok := in.(*ssa.Store)
+			if !ok || fieldVar(st.Addr) != textField {
+				return
+			}
+			if _, isFA := st.Addr.(*ssa.FieldAddr); !isFA {
+				return
+			}
+			nStores++
+			key := "C06.verbatim/join/" + fnName(topFn(f))
+			bad := ""
+			for _, o := range origins(st.Val, nil) {
+				call, ok := o.V.(*ssa.Call)
+				fo := (*types.Func)(nil)
+				if ok {
+					fo = calleeOf(call.Common())
+				}
+				switch {
+				case fo == nil || fo.Pkg() == nil || fo.Pkg().Path() != "strings" || fo.Name() != "Join" || len(call.Common().Args) != 2:
+					bad = fmt.Sprintf("%s is assigned %s, which is not strings.Join of the collected fragments", textField.Name(), path(o.V))
+				case !isCollected(call.Common().Args[0]):
+					bad = fmt.Sprintf("the slice joined into %s is not (only) the result of %s", textField.Name(), collect.Name())
+				default:
+					if cv, isC := constOf(call.Common().Args[1]); !isC || cv.ExactString() != `""` {
+						bad = fmt.Sprintf("the fragments are joined into %s with a separator other than the empty string", textField.Name())
+					}
+				}
+			}
+			c.Check(bad == "", key, p.Pos(st.Pos()),
+				textField.Name()+" = strings.Join(<collected fragments>, \"\")",
+				fnName(topFn(f))+": "+bad+": the canonical text is no longer the formatter's fragments byte for byte, so quoted values change when it is parsed back")
+		})
+	}
+	if nStores == 0 {
+		c.Lost("no assignment of Selector.%s", textField.Name())
 	}
 }
